@@ -139,6 +139,21 @@ def dispatch_case(ctx, case):
     allL = [counter_in, counter_out] + Ls
     for i, l in enumerate(allL):
         l['id'] = i
+    # 'same_as': this registration uses the SAME callable object as an
+    # earlier listener of its class (with its own type filter): the callable
+    # then runs once per matching registration, at each registration's place
+    for k, l in enumerate(Ls):
+        l['gid'] = l['id']
+        sa = l.get('same_as')
+        if sa is not None:
+            earlier = [e for e in Ls[:k] if e['cls'] == l['cls'] and
+                       e['gid'] == e['id']]
+            if earlier:
+                root = earlier[sa % len(earlier)]
+                l['gid'] = root['id']
+                l['ignore'], l['write'] = root['ignore'], root['write']
+                ctx.label('same_callable_registered_twice')
+    counter_in['gid'], counter_out['gid'] = counter_in['id'], counter_out['id']
     kinds = [h[0] for h in history] + ['disconnect']
     si = kinds.index('success')
     last = len(kinds) - 1
@@ -167,9 +182,9 @@ def dispatch_case(ctx, case):
         stopped = False
         for l in ie:
             if matches(l, kind):
-                want_in.append((l['id'], i))
+                want_in.append((l['gid'], i))
                 if l['write'] and writes_at(i):
-                    user_writes.append(tuple(l['write']) + (l['id'], i))
+                    user_writes.append(tuple(l['write']) + (l['gid'], i))
                 if i in l['ignore']:
                     stopped = True
                     fired += 1
@@ -179,9 +194,9 @@ def dispatch_case(ctx, case):
             continue
         for l in io:
             if matches(l, kind):
-                want_in.append((l['id'], i))
+                want_in.append((l['gid'], i))
                 if l['write'] and writes_at(i):
-                    user_writes.append(tuple(l['write']) + (l['id'], i))
+                    user_writes.append(tuple(l['write']) + (l['gid'], i))
                 if i in l['ignore']:
                     fired += 1
                     break
@@ -276,8 +291,13 @@ def dispatch_case(ctx, case):
                     raise IgnorePacket
             return fn
         shared_deco = {}
+        fns = {}
+        by_gid = {x['id']: x for x in allL}
         for l in allL:
             types = [F[t] for t in l['types']]
+            if l['gid'] not in fns:
+                fns[l['gid']] = make(by_gid[l['gid']])
+            fn_l = fns[l['gid']]
             kw = {}
             if l['cls'][1] == 'e':
                 kw['early'] = True
@@ -290,11 +310,11 @@ def dispatch_case(ctx, case):
                     shared_deco[key] = conn.listener(*types, **kw)
                 else:
                     ctx.label('decorator_object_reused')
-                shared_deco[key](make(l))
+                shared_deco[key](fn_l)
             elif case.get('decorator') and l['id'] % 2:
-                conn.listener(*types, **kw)(make(l))
+                conn.listener(*types, **kw)(fn_l)
             else:
-                conn.register_packet_listener(make(l), *types, **kw)
+                conn.register_packet_listener(fn_l, *types, **kw)
         try:
             conn.connect()
         except Exception as e:
@@ -356,7 +376,7 @@ def dispatch_case(ctx, case):
         stopped = False
         for l in oe:
             if matches(l, kind):
-                want_calls.append((l['id'], j, 'before'))
+                want_calls.append((l['gid'], j, 'before'))
                 if j in l['ignore']:
                     stopped = True
                     fired += 1
@@ -366,7 +386,7 @@ def dispatch_case(ctx, case):
             continue
         for l in oo:
             if matches(l, kind):
-                want_calls.append((l['id'], j, 'after'))
+                want_calls.append((l['gid'], j, 'after'))
                 if j in l['ignore']:
                     fired += 1
                     break
@@ -690,7 +710,9 @@ def listeners_strategy(nhist):
             st.sampled_from(['hello', 'from listener']))) \
             if cls[0] == 'i' else st.none()
         return st.fixed_dictionaries({'cls': st.just(cls), 'types': types,
-                                      'ignore': ignore, 'write': write})
+                                      'ignore': ignore, 'write': write,
+                                      'same_as': st.sampled_from(
+                                          [None, None, None, 0, 1])})
     return st.lists(st.sampled_from(['ie', 'io', 'oe', 'oo']).flatmap(L),
                     max_size=12)
 
@@ -756,6 +778,15 @@ def t_fixed(ctx):
              'write': None},
             {'cls': 'io', 'types': ['LoginSetCompression', 'LoginDisconnect'],
              'ignore': [], 'write': None},
+            # the same callables again, with other filters, after the others
+            {'cls': 'io', 'types': ['Chat', 'CbKA'], 'ignore': [],
+             'write': None, 'same_as': 0},
+            {'cls': 'ie', 'types': ['Packet'], 'ignore': [], 'write': None,
+             'same_as': 0},
+            {'cls': 'oo', 'types': ['SbKA'], 'ignore': [], 'write': None,
+             'same_as': 0},
+            {'cls': 'oe', 'types': ['Packet'], 'ignore': [], 'write': None,
+             'same_as': 0},
         ]
         dispatch_case(ctx, {'version': v, 'history': hist,
                             'listeners': base, 'decorator': False})
